@@ -131,6 +131,9 @@ def grid(fn, quick, rng):
                         doms.append(texts(ALPHA, 2 if quick else 3) if phase == "exh" else [c[1:3], c[-2:], c[2:5], "ab", "ä", c + "a", c])
                     else:
                         doms.append(["", "a", "€😀"])
+                elif k == ck and fn["id"].startswith("Elementweise") and phase == "exh":
+                    base_vals = D.WERTE[:3] if k == "ZL" else ["", "a", "ä€"]
+                    doms.append([list(t) for t in itertools.product(base_vals, repeat=n)] + [x for x in ([], [1] if k == "ZL" else ["a"]) if len(x) != n])
                 elif k == ck and k in ("ZL", "XL", "TL", "KL"):
                     doms.append(list(seqs({"ZL": D.WERTE[:3], "XL": D.TEXTE[:3], "TL": ["", "a", "ä€"], "KL": D.KWERTE[:3]}[k], 2 if len(ps) > 2 or k != "ZL" else (4 if fn["id"].startswith("Elementweise") else 2))))
                 elif k == "BL":
@@ -204,6 +207,8 @@ def parse_output(text, nitems):
     i = 0
     while i < len(toks) and len(obs) < nitems:
         t = toks[i]
+        if t.startswith("\x01X"):
+            break
         if i + 1 < len(toks) and toks[i + 1].startswith("\x01"):
             m = toks[i + 1]
             if m.startswith("\x01E 1"):
@@ -221,7 +226,7 @@ def parse_output(text, nitems):
     return obs
 
 
-def run_cases(b, exe, fn, forms, cases):
+def run_cases(b, exe, fnr, fn, forms, cases):
     """observations of the compiled driver: per case a list (one per form) of
     ('ok', fields) | ('err',) | ('crash', info) | ('timeout',)"""
     nf = len(forms)
@@ -231,12 +236,13 @@ def run_cases(b, exe, fn, forms, cases):
     pos = 0
     while pos < len(cases):
         chunk = toks[pos:pos + BATCH]
-        argv = [t for c in chunk for t in c]
-        rc, out, err = b.run(exe, args=argv, timeout=120)
+        argv = [str(fnr)] + [t for c in chunk for t in c]
+        rc, out, err = b.run(exe, args=argv, timeout=900)
         spawns += 1
         obs = parse_output(out.decode("utf-8", "replace"), len(chunk) * nf)
+        aborted = "\x01X" in out.decode("utf-8", "replace")[-8:]
         while len(obs) < len(chunk) * nf:
-            obs.append(("crash", "driver ended early rc=%d %s" % (rc, err[-200:].decode("utf-8", "replace"))))
+            obs.append(("skipped",) if aborted else ("crash", "driver ended early rc=%d %s" % (rc, err[-200:].decode("utf-8", "replace"))))
         for ci in range(len(chunk)):
             out_obs.append(obs[ci * nf:(ci + 1) * nf])
         pos += len(chunk)
@@ -312,25 +318,25 @@ def m_dec(kind, s):
     if kind == "W":
         return "wahr" if ints[0] != 0 else "falsch"
     if kind == "K":
-        return "K" + repr(ints[0] / 4)
+        return D.kfmt(ints[0] / 4)
     if kind == "Kfrac":
-        return "K" + repr(ints[0] / ints[1]) if ints[1] != 0 else "K?"
+        return D.kfmt(ints[0] / ints[1]) if ints[1] != 0 else "K?"
     if kind == "B":
-        return "<" + "".join(chr(c) for c in ints) + ">"
+        return "<" + D.esc("".join(chr(c) for c in ints)) + ">"
     if kind == "T":
-        return "<" + "".join(chr(c) for c in ints) + ">"
+        return "<" + D.esc("".join(chr(c) for c in ints)) + ">"
     if kind == "X":
         return "<" + D.TEXTE[ints[0]] + ">"
     if kind in ("ZL", "YL"):
         return "[" + "".join("%d," % x for x in ints) + "]"
     if kind == "KL":
-        return "[" + "".join("K%r;" % (x / 4) for x in ints) + "]"
+        return "[" + "".join(D.kfmt(x / 4) + ";" for x in ints) + "]"
     if kind == "XL":
         return "[" + "".join("<%s>," % D.TEXTE[x] for x in ints) + "]"
     if kind == "BL":
-        return "[" + "".join("<%s>," % chr(x) for x in ints) + "]"
+        return "[" + "".join("<%s>," % D.esc(chr(x)) for x in ints) + "]"
     if kind == "TL":
-        return "[" + "".join("<%s>," % "".join(chr(int(c)) for c in t.split(",") if c != "") for t in body.split(";")[:-1]) + "]"
+        return "[" + "".join("<%s>," % D.esc("".join(chr(int(c)) for c in t.split(",") if c != "")) for t in body.split(";")[:-1]) + "]"
     raise ValueError(kind)
 
 
@@ -458,6 +464,7 @@ def main():
         if fn["model"] in ELEM_PARAM:
             fn["elem"] = ELEM_PARAM[fn["model"]]
     sc = vlib.scratch()
+    os.environ.setdefault("C17_DEATHS", "200" if ck.quick else "4000")
 
     # ---- (b) transcription drift -----------------------------------------------------------------
     hs = source_hashes(vlib.REPO)
@@ -493,67 +500,95 @@ def main():
             ck.finish()
         os.replace(shim + ".tmp%d" % os.getpid(), shim)
     O2_FNS = ("Einfügen_Liste", "Lösche_Bereich", "Spalte", "Text_Index_Von_Text", "Trim", "Hinzufügen_Liste@Text", "Quicksort_Ref", "Quicksort", "Liste_Spiegeln")
-    jobs = []
+    # one driver program per group of functions (a kddp run costs ~2.5 CPU seconds, mostly for the Duden imports)
+    groups = {}
     for fn in S.FNS:
         forms = [v for v in fn["names"] if not only or any(o[0] == fn["id"] and o[1] == v for o in only)]
         if not forms:
             continue
-        opts = [0]
         if only:
             opts = sorted({o[3] for o in only if o[0] == fn["id"]})
         elif not ck.quick or fn["id"] in O2_FNS:
             opts = [0, 2]
+        else:
+            opts = [0]
         for o in opts:
-            jobs.append((fn, forms, o))
+            gname = "%s_%s" % (fn["fam"], fn["module"])
+            g0 = groups.setdefault((gname, o), [])
+            g0.append((fn, forms))
+    jobs = []
+    for (gname, o), ents in sorted(groups.items(), key=lambda kv: (kv[0][1], kv[0][0])):
+        per = 12 if o == 0 else 40
+        for a in range(0, len(ents), per):
+            jobs.append(("%s_%d" % (gname, a // per), o, ents[a:a + per]))
 
     def compile_one(job):
-        fn, forms, o = job
-        base = os.path.join(sc, "%s_O%d" % (re.sub(r"\W", "_", fn["id"]), o))
-        src = D.program(fn, forms)
+        gname, o, ents = job
+        base = os.path.join(sc, "%s_O%d" % (re.sub(r"\W", "_", gname), o))
+        src = D.program(ents)
         open(base + ".ddp", "w").write(src)
-        return (job, base, src, b.compile(base + ".ddp", base, opt=o, extra_objs=[shim]))
+        return (job, base, src, b.compile(base + ".ddp", base, opt=o, extra_objs=[shim], timeout=600))
     compiled = vlib.pmap(compile_one, jobs)
     progs = []
     for (job, base, src, r) in compiled:
-        fn, forms, o = job
+        gname, o, ents = job
         if r["stage"] != "ok":
-            ck.violation("compile fn=%s O%d" % (fn["id"], o), "the driver calling %s does not compile: %s" % (sorted(set(fn["names"].values())), r["out"][-500:]),
-                         dict(source=src, stage=r["stage"], output=r["out"][-2000:], opt=o))
+            ck.violation("compile group=%s O%d" % (gname, o), "the driver calling %s does not compile: %s" % ([e[0]["id"] for e in ents], r["out"][-700:]),
+                         dict(source=src, stage=r["stage"], output=r["out"][-3000:], opt=o))
         else:
-            progs.append((fn, forms, o, base, src))
-    log("[c17] %d driver programs compiled (%.0fs)" % (len(progs), __import__("time").time() - ck.t0))
+            for nr, (fn, forms) in enumerate(ents):
+                progs.append((fn, forms, o, base, nr))
+    log("[c17] %d driver programs compiled for %d function entries (%.0fs)" % (len(jobs), len(progs), __import__("time").time() - ck.t0))
 
-    # ---- cases -------------------------------------------------------------------------------------
-    grids = {}
-    for fn in S.FNS:
-        if only:
-            grids[fn["id"]] = [tuple(o[2]) for o in only if o[0] == fn["id"]]
-        else:
-            g = grid(fn, ck.quick, ck.rng)
-            pre = [tuple(c[2]) for c in corpus if c[0] == fn["id"]]
-            grids[fn["id"]] = pre + g
-    work = []
-    for (fn, forms, o, base, src) in progs:
-        cases = grids[fn["id"]]
-        if o != 0 and ck.quick and len(cases) > 1500:
-            cases = cases[::4]
-        step = max(200, min(BATCH, (len(cases) + 3) // 4))
-        for a in range(0, len(cases), step):
-            work.append((fn, forms, o, base, src, cases[a:a + step]))
-
-    def run_one(w):
-        fn, forms, o, base, src, cases = w
-        return run_cases(b, base, fn, forms, cases)
-    results = vlib.pmap(run_one, work)
-    log("[c17] %d work chunks run (%.0fs)" % (len(work), __import__("time").time() - ck.t0))
-
-    # ---- model answers (once per chunk) -----------------------------------------------------------
+    # ---- cases: grid -> specification -> model -> thinning of the error-raising cells ---------------
     model = vlib.model_bin("c17")
     have_model = os.path.exists(model)
     if not have_model:
         ck.broken_obligation("extracted model driver extract/_build/c17 is missing (make -C /verif setup)", "")
-    mres = vlib.pmap(lambda w: model_run(model, w[0], w[5]) if have_model else [None] * len(w[5]), work)
-    log("[c17] model answers (%.0fs)" % (__import__("time").time() - ck.t0))
+
+    def prepare(fn):
+        if only:
+            cs = [tuple(o[2]) for o in only if o[0] == fn["id"]]
+        else:
+            rng = __import__("random").Random("%d/%s" % (ck.seed, fn["id"]))
+            cs = [tuple(c[2]) for c in corpus if c[0] == fn["id"]] + grid(fn, ck.quick, rng)
+        sps = []
+        for c in cs:
+            try:
+                sps.append(fn["spec"](*c))
+            except S.Err:
+                sps.append(("err",))
+        ms = model_run(model, fn, cs) if have_model else [None] * len(cs)
+        # every cell predicted to end in a Laufzeitfehler costs one fork of the driver: keep a bounded number per
+        # argument shape (all of them in the thorough tier up to a larger bound)
+        cap = 2 if ck.quick else 30
+        seen = {}
+        keep = []
+        for c, sp, mo in zip(cs, sps, ms):
+            pred_err = (sp is not None and sp[0] == "err") or (mo is not None and mo[0] == "err") or (sp is None and mo is None)
+            if pred_err and not only:
+                k = shape(fn, c)
+                seen[k] = seen.get(k, 0) + 1
+                if seen[k] > cap:
+                    continue
+            keep.append((c, sp, mo))
+        return keep
+    prepared = dict(zip([fn["id"] for fn in S.FNS], vlib.pmap(prepare, S.FNS)))
+    log("[c17] grids, specification and model answers (%.0fs)" % (__import__("time").time() - ck.t0))
+    work = []
+    for (fn, forms, o, base, nr) in progs:
+        cases = prepared[fn["id"]]
+        if o != 0 and ck.quick and len(cases) > 1500:
+            cases = cases[::4]
+        step = max(200, min(BATCH, (len(cases) + 3) // 4))
+        for a in range(0, len(cases), step):
+            work.append((fn, forms, o, base, nr, cases[a:a + step]))
+
+    def run_one(w):
+        fn, forms, o, base, nr, cases = w
+        return run_cases(b, base, nr, fn, forms, [c[0] for c in cases])
+    results = vlib.pmap(run_one, work)
+    log("[c17] %d work chunks run (%.0fs)" % (len(work), __import__("time").time() - ck.t0))
 
     # ---- judgement ---------------------------------------------------------------------------------
     per_fn = {}
@@ -562,22 +597,21 @@ def main():
     model_gap = {}
     model_mismatch = []
     best = {}      # violation key -> (size, what, replay)
-    for w, (obs_all, sp_n), mobs in zip(work, results, mres):
-        fn, forms, o, base, src, cases = w
+    for w, (obs_all, sp_n) in zip(work, results):
+        fn, forms, o, base, nr, cases = w
         spawns += sp_n
         st = per_fn.setdefault(fn["id"], dict(cases=0, specified=0, unspecified=0, forms=set(), model_compared=0))
         for v in forms:
             st["forms"].add("%s/O%d" % (v, o))
-        for c, obs, mo in zip(cases, obs_all, mobs):
-            try:
-                sp = fn["spec"](*c)
-            except S.Err:
-                sp = ("err",)
+        for (c, sp, mo), obs in zip(cases, obs_all):
             if sp is not None:
                 ck.nontrivial((fn["id"], c))
             if mo is None:
                 model_gap[fn["model"]] = model_gap.get(fn["model"], 0) + 1
             for v, ob in zip(forms, obs):
+                if ob[0] == "skipped":
+                    st["skipped"] = st.get("skipped", 0) + 1
+                    continue
                 st["cases"] += 1
                 ck.count()
                 if sp is None:
@@ -596,8 +630,8 @@ def main():
                         toks = [D.tok(k, a) for k, a in zip(fn["params"], c)]
                         best[key] = (size, "%s %s called with %s: specification %s, executable %s" % (fn["names"][v], fn["tmpl"], list(c), _show_sp(fn, sp), _show_ob(ob)),
                                      dict(function=fn["id"], form=v, args=list(c), opt=o, ddp_function=fn["names"][v], module=fn["module"], argv=toks,
-                                          expected=_show_sp(fn, sp), observed=_show_ob(ob), source=D.program(fn, [v]),
-                                          how="kddp kompiliere prog.ddp -O %d (source above, linked with harness/c/c17shim.c); ./prog %s" % (o, " ".join("'%s'" % t for t in toks))))
+                                          expected=_show_sp(fn, sp), observed=_show_ob(ob), source=D.program([(fn, [v])]),
+                                          how="kddp kompiliere prog.ddp -O %d (source above, linked with harness/c/c17shim.c); ./prog 0 %s" % (o, " ".join("'%s'" % t for t in toks))))
                 # model vs implementation (observables only)
                 if mo is not None:
                     st["model_compared"] += 1
@@ -631,7 +665,8 @@ def main():
     reached = {nm for fn in S.FNS for nm in fn["names"].values()}
     uncovered = {mod: [n for n in names if n not in reached] for mod, names in all_public.items()}
     ck.cov.update(dict(
-        programs=len(progs), process_spawns=spawns, functions_exercised=len(reached), function_entries=len(S.FNS),
+        violation_keys=sorted(best)[:400],
+        programs=len(jobs), process_spawns=spawns, functions_exercised=len(reached), function_entries=len(S.FNS),
         specified_cases=n_spec, unspecified_cases_model_only=n_unspec, expected_laufzeitfehler=n_err_expected,
         covered_by_proof_and_grid=covered_models, covered_by_specification_oracle_only=spec_only,
         uncovered_public_functions=uncovered, model_gaps=model_gap,
